@@ -39,6 +39,9 @@ def like_decks(chk, thorough, seed, for_c09=False):
 def spell_like(d, rng):
     """Attach density spellings and the BUT tokens to a GenLike deck."""
     values = []
+    matscale = rng.choice([1, 10])          # material numbers 1, 2 ... or 10, 20 ... (MAT=10 on a BUT list)
+    for c in d['cells']:
+        c['mat'] = c['mat'] * matscale
     for c in d['cells']:
         if c['mat'] == 0:
             c['rho'], c['rhotxt'] = 0, ''
